@@ -19,6 +19,16 @@ theorem allRange_imp {lo n : Nat} {p : Nat → Bool} (h : allRange lo n p = true
   have := all1_imp h (i - lo) (by omega)
   simpa [show lo + (i - lo) = i by omega] using this
 
+theorem allRangeTR_go_eq (lo : Nat) (p : Nat → Bool) (k : Nat) (acc : Bool) :
+    allRangeTR.go lo p k acc = (acc && all1 k (fun i => p (lo + i))) := by
+  induction k generalizing acc with
+  | zero => simp [allRangeTR.go, all1]
+  | succ k ih => simp [allRangeTR.go, all1, ih, Bool.and_assoc]
+theorem allRangeTR_eq (lo n : Nat) (p : Nat → Bool) : allRangeTR lo n p = allRange lo n p := by
+  simp [allRangeTR, allRange, allRangeTR_go_eq]
+theorem allRangeTR_imp {lo n : Nat} {p : Nat → Bool} (h : allRangeTR lo n p = true) :
+    ∀ i, lo ≤ i → i < lo + n → p i = true := allRange_imp (allRangeTR_eq lo n p ▸ h)
+
 theorem all2_imp {n m : Nat} {p : Nat → Nat → Bool} (h : all2 n m p = true) :
     ∀ a, a < n → ∀ b, b < m → p a b = true := by
   intro a ha b hb
